@@ -159,6 +159,40 @@ func evalC10(pos string, d []byte) (vs []*Violation) {
 		} else if v.Cmp(bigPort) <= 0 {
 			add("ParseURI", "in-range-accepted", cl, fmt.Sprintf("%s: port %s rejected: %v", pos, d, e))
 		}
+	case "parsecmp-reuse":
+		// the URIs handed back by URIParseCmp into structures the caller has used before
+		s1, s2 := []byte("sip:h:"+string(d)), []byte("sip:g")
+		var r1, r2 sipsp.PsipURI
+		sipsp.ParseURI([]byte("sips:x:y@z:5061;p=1?h=2"), &r1)
+		r2 = r1
+		_, e, _ := sipsp.URIParseCmp(s1, s2, 0, &r1, &r2)
+		if e == 0 {
+			f := bigOf(safeGet(s1, r1.Port))
+			if f == nil || new(big.Int).SetUint64(uint64(r1.PortNo)).Cmp(f) != 0 {
+				add("URIParseCmp", "value-equals-digit-string", cl, fmt.Sprintf("r1: port %q reported as %d", safeGet(s1, r1.Port), r1.PortNo))
+			}
+			if r2.PortNo != 0 || r2.Port.Len != 0 {
+				add("URIParseCmp", "value-equals-digit-string", "port-less", fmt.Sprintf("r2 (sip:g): Port %v PortNo %d", r2.Port, r2.PortNo))
+			}
+		}
+	case "port-v6-backtrack", "port-v6-backtrack-h":
+		s := "sip:[::1]:1;x@host:" + string(d)
+		if pos == "port-v6-backtrack-h" {
+			s = "sips:[::2]:90?x@[::3]:" + string(d) + ";p"
+		}
+		var u sipsp.PsipURI
+		e, _ := sipsp.ParseURI([]byte(s), &u)
+		if e == 0 {
+			f := bigOf(u.Port.Get([]byte(s)))
+			if f == nil || new(big.Int).SetUint64(uint64(u.PortNo)).Cmp(f) != 0 {
+				add("ParseURI", "value-equals-digit-string", cl+"/after-user-backtrack", fmt.Sprintf("%s: port %q reported as %d", s, u.Port.Get([]byte(s)), u.PortNo))
+			}
+			if v.Cmp(bigPort) > 0 {
+				add("ParseURI", "out-of-range-rejected", cl, fmt.Sprintf("%s: port %s accepted (PortNo %d)", pos, d, u.PortNo))
+			}
+		} else if v.Cmp(bigPort) <= 0 {
+			add("ParseURI", "in-range-accepted", cl+"/after-user-backtrack", fmt.Sprintf("%s rejected: %v", s, e))
+		}
 	case "status":
 		if len(d) != 3 {
 			return
@@ -240,7 +274,7 @@ func evalC10q(s []byte) (vs []*Violation, valid bool) {
 	return
 }
 
-var c10Positions = []string{"cseq", "clen", "expires", "c-expires", "q-int", "port", "port-user", "port-params", "port-hdrs", "port-digitpass", "port-digitpass6", "port-numpass", "port-userparam", "port-tel"}
+var c10Positions = []string{"cseq", "clen", "expires", "c-expires", "q-int", "port", "port-user", "port-params", "port-hdrs", "port-digitpass", "port-digitpass6", "port-numpass", "port-userparam", "port-tel", "parsecmp-reuse", "port-v6-backtrack", "port-v6-backtrack-h"}
 
 func c10Boundaries() []*big.Int {
 	var bs []*big.Int
@@ -327,10 +361,14 @@ func checkC10(r *Run) {
 	})
 	// chunked: every schedule of "digits + terminator" for boundary values
 	var paths, cpaths, qpaths [][]byte
+	for _, small := range []string{"0000000010", "00000000007", "0000016777216", "0000000000000000000065535"} {
+		paths = append(paths, []byte(small+"\r\nX"))
+		cpaths = append(cpaths, []byte(small+" INVITE\r\nX"))
+	}
 	for _, b := range bnd[:10] {
 		for d := int64(-2); d <= 2; d++ {
 			v := new(big.Int).Add(b, big.NewInt(d)).String()
-			paths = append(paths, []byte(v+"\r\nX"), []byte("00"+v+" \r\n X\r\nY"))
+			paths = append(paths, []byte(v+"\r\nX"), []byte("00"+v+" \r\n X\r\nY"), []byte(strings.Repeat("0", 12-len(v)%12)+v+"\r\nX"))
 			cpaths = append(cpaths, []byte(v+" INVITE\r\nX"))
 			qpaths = append(qpaths, []byte("<sip:a@b>;expires="+v+";q="+v+"\r\nX"), []byte("<sip:a@b>;q=0."+v[:1]+";expires="+v+" ,<sip:c@d>;expires=1\r\nX"))
 		}
